@@ -197,7 +197,12 @@ impl<'a> Gen<'a> {
                             1 => Some("a>b".to_string()),
                             _ => Some(plain_string(self.rng, 1, 4)),
                         };
-                        e.children.push(ANode::pi("pi", d.as_deref()));
+                        let mut pi = ANode::pi("pi", d.as_deref());
+                        if self.rng.chance(1, 25) {
+                            // a target in a namespace cannot be written at all: whatever the call does, it returns
+                            pi.name.ns = "urn:pi-target-namespace".to_string();
+                        }
+                        e.children.push(pi);
                     }
                 }
             }
@@ -655,6 +660,19 @@ impl C19 {
             Some(s) => s,
             None => return, // single leaves: totality and doctype only
         };
+        {
+            let mut ns_pi = false;
+            sub.walk(&mut |x| {
+                if x.kind == AKind::Pi && !x.name.ns.is_empty() {
+                    ns_pi = true
+                }
+            });
+            if ns_pi {
+                // the statement says nothing about such a target beyond "returns without panicking"
+                ctx.count("outputs_with_namespaced_pi_target_not_judged");
+                return;
+            }
+        }
         if has_pi_with_gt(&sub) {
             ctx.violation(
                 "a processing instruction containing '>' was emitted instead of refused",
